@@ -882,6 +882,55 @@ def _l5(model, rep):
            "interpolate"].lineno)
 
 
+def _single_field_components(model, rep):
+    """ElementComposite.gbasis and ElementVector.gbasis take ``[0]`` of what
+    a component's gbasis returns: the single field of a non-composite
+    element.  A composite handed in as a *component* returns one field per
+    inner component, of which all but the first are dropped - its DOFs are
+    numbered and split out, but their basis functions are identically zero
+    (empty matrix rows), silently.  Element.__mul__ flattens; the
+    constructors must do the same or refuse: ElementComposite.__init__
+    replaces a composite argument by its components, ElementVector.__init__
+    refuses one."""
+    L4 = "C19-L4"
+    for modn, clsn in (("skfem.element.element_composite",
+                        "ElementComposite"),
+                       ("skfem.element.element_vector", "ElementVector")):
+        cls = model.cls(modn, clsn)
+        gb = cls.methods.get("gbasis")
+        init = cls.methods.get("__init__")
+        if gb is None or init is None:
+            raise AnalysisError(f"{clsn}: gbasis / __init__ not found")
+        takes0 = any(isinstance(x, ast.Subscript) and isinstance(
+            x.value, ast.Call) and isinstance(x.value.func, ast.Attribute)
+            and x.value.func.attr == "gbasis" and src(x.slice) == "0"
+            for x in ast.walk(gb.node))
+        cons = f"{clsn}.__init__:composite-component"
+        if not takes0:
+            rep.ok(L4, cons, "gbasis forwards every field of a component")
+            continue
+        tests = [x for x in ast.walk(init.node) if isinstance(x, ast.Call)
+                 and src(x.func) == "isinstance" and len(x.args) == 2
+                 and "ElementComposite" in src(x.args[1])]
+        handled = bool(tests) and (
+            any(isinstance(x, ast.Raise) for x in ast.walk(init.node))
+            or any(isinstance(x, ast.Attribute) and x.attr == "elems"
+                   and isinstance(x.ctx, ast.Load)
+                   and src(x.value) != "self" for x in ast.walk(init.node)))
+        if handled:
+            rep.ok(L4, cons, "a composite component is flattened into its "
+                   "components (or refused)")
+        else:
+            rep.fail(L4, cls.path, f"{clsn}.__init__", cons,
+                     f"{clsn}.gbasis takes field [0] of each component's "
+                     f"gbasis but the constructor accepts a composite "
+                     f"component as it is: ElementComposite("
+                     f"ElementComposite(P2, P1), P0) numbers 42 DOFs like "
+                     f"P2 * P1 * P0, and the 9 DOFs of the inner P1 have "
+                     f"identically zero basis functions (mass matrix of "
+                     f"rank 33)", init.lineno)
+
+
 def _composite_padding(model, rep):
     """CompositeBasis.basis: function j of component i is the tuple with
     that function in slot i and a *zero field of component k's kind* in
@@ -1061,6 +1110,7 @@ def run(model: Model, rep, tier: str) -> None:
            lambda: _tolocal_facets(model, rep),
            lambda: _add_functionals(model, rep),
            lambda: _l3(model, rep), lambda: _l4(model, rep),
+           lambda: _single_field_components(model, rep),
            lambda: _composite_padding(model, rep),
            lambda: _bmat_blocks(model, rep),
            lambda: _l5(model, rep), lambda: _l6(model, rep))
@@ -1082,6 +1132,10 @@ _LOCS = """            self.doflocs = np.array([
 _AS = "skfem/assembly/__init__.py"
 _ADI = "skfem/autodiff/__init__.py"
 MUTANTS = [
+    ("composite elements keep a composite component as it is",
+     ("skfem/element/element_composite.py",
+      "            flat += list(e.elems) if isinstance(e, ElementComposite) "
+      "else [e]", "            flat += [e]"), "C19-L4"),
     ("composite basis with a shared numbering splits per component",
      ("skfem/assembly/basis/composite_basis.py",
       "        if self.equal_dofnum:\n            # the bases share one "
